@@ -166,7 +166,7 @@ def run_parse(text, parser=None, want_tree=True, want_config=False, via_file=Non
     lexer.scan = counted
     # stale attributes from an earlier parse must not be mistaken for this one's
     try:
-        with watchdog():
+        with watchdog(max(_WATCHDOG_S, nbytes / 40000.0)):
             if via_file is not None:
                 ret = parser.parse_file(via_file)
             else:
